@@ -223,7 +223,15 @@ def _diff_one(sk, r, tier, rec):
             # simulate with a full dictionary (insertion order of the dictionary = reverse sorted, irrelevant by statement)
             full = {mapping[o]: POINT[o] for o in reversed(free_orig)}
             try:
-                bs = make_biogeme(db, {'f': R.Builder(spec).build(rename(variant, mapping))})
+                fexpr = R.Builder(spec).build(rename(variant, mapping))
+                bs = make_biogeme(db, {'f': fexpr})
+                # history: every sub-formula that contains a proper, non-empty subset of the parameters is first evaluated
+                # alone (which numbers it on its own); the values given by name must still reach the right parameters
+                for node in _subformulas(fexpr):
+                    try:
+                        node.get_value_c(database=db, prepare_ids=True)
+                    except Exception:
+                        pass
                 sim = [float(v) for v in bs.simulate(full)['f']]
                 if not all(close(a, w) for a, w in zip(sim, want_rows)):
                     bad('simulate-dictionary-matched-by-position', f'simulate={sim} expected {want_rows}')
@@ -309,6 +317,21 @@ def _history(task, rec):
     rec.sample(dict(part='history', skeleton=sk, renaming=mapping, depth=depth))
 
 
+def _subformulas(expr):
+    """Nodes of a biogeme expression below the root that contain at least one parameter (data-free or not)."""
+    from biogeme.expressions import TypeOfElementaryExpression as T
+    out = []
+
+    def walk(e, top):
+        for c in e.get_children():
+            walk(c, False)
+        if not top and e.get_children() and e.set_of_elementary_expression(T.BETA) and not e.embed_expression('bioDraws'):
+            out.append(e)
+
+    walk(expr, True)
+    return out[:6]
+
+
 def newton(term, free, fixedvals, start, iters=60):
     """Reference optimum of sum_rows term by Newton's method on exact hyper-dual derivatives."""
     x = dict(start)
@@ -387,6 +410,18 @@ def _estimate(task, rec):
                 continue
             if not all(abs(got[o] - want[o]) <= 1e-4 * max(1.0, abs(want[o])) for o in free_orig):
                 bad('estimate-attached-to-wrong-name', f'estimates by original identity {got} expected {want}')
+            # values requested by name: every ordered non-empty subset of the estimated names
+            est_names = [mapping[o] for o in free_orig]
+            for k in range(1, len(est_names) + 1):
+                for sel in itertools.permutations(est_names, k):
+                    try:
+                        sub = res.get_beta_values(my_betas=list(sel))
+                    except Exception as e:
+                        bad(f'get_beta_values-raised-{type(e).__name__}', f'my_betas={sel}: {str(e)[:200]}')
+                        break
+                    if sorted(sub) != sorted(sel) or any(abs(sub[nm] - vals[nm]) > 0 for nm in sel):
+                        bad('get_beta_values-of-a-selection-attached-to-wrong-name', f'get_beta_values({list(sel)}) = {sub}, all estimates {vals}')
+                        break
             # results' own pairing of name / value / bounds
             for beta in res.data.betas:
                 o = inv.get(beta.name)
